@@ -32,6 +32,51 @@ func RunUseEmpty(conf core.Config) *core.Result {
 	}
 	for _, pkg := range pkgs {
 		info := pkg.TypesInfo
+		emptyHelpers := map[types.Object]bool{}
+		for _, f := range pkg.Syntax {
+			for _, d := range f.Decls {
+				fd, ok := d.(*ast.FuncDecl)
+				if !ok || fd.Body == nil || fd.Recv == nil || len(fd.Recv.List) != 1 || len(fd.Recv.List[0].Names) != 1 || fd.Type.Results == nil || len(fd.Type.Results.List) != 1 {
+					continue
+				}
+				rv := info.Defs[fd.Recv.List[0].Names[0]]
+				trues, under := 0, 0
+				var stack []ast.Node
+				ast.Inspect(fd.Body, func(n ast.Node) bool {
+					if n == nil {
+						stack = stack[:len(stack)-1]
+						return true
+					}
+					stack = append(stack, n)
+					rs, ok := n.(*ast.ReturnStmt)
+					if !ok || len(rs.Results) != 1 {
+						return true
+					}
+					if id, ok := rs.Results[0].(*ast.Ident); !ok || id.Name != "true" {
+						return true
+					}
+					trues++
+					for i := len(stack) - 2; i >= 0; i-- {
+						is, ok := stack[i].(*ast.IfStmt)
+						if !ok || i+1 >= len(stack) || stack[i+1] != ast.Node(is.Body) {
+							continue
+						}
+						if c, ok := ast.Unparen(is.Cond).(*ast.CallExpr); ok && len(c.Args) == 0 {
+							if sel, ok := c.Fun.(*ast.SelectorExpr); ok && sel.Sel.Name == "IsEmpty" {
+								if id, ok := ast.Unparen(sel.X).(*ast.Ident); ok && rv != nil && core.ObjOf(info, id) == rv {
+									under++
+									break
+								}
+							}
+						}
+					}
+					return true
+				})
+				if trues > 0 && trues == under {
+					emptyHelpers[info.Defs[fd.Name]] = true
+				}
+			}
+		}
 		for _, f := range pkg.Syntax {
 			for _, d := range f.Decls {
 				fd, ok := d.(*ast.FuncDecl)
@@ -84,6 +129,13 @@ func RunUseEmpty(conf core.Config) *core.Result {
 					e = ast.Unparen(e)
 					if c, ok := e.(*ast.CallExpr); ok && len(c.Args) == 0 {
 						if sel, ok := c.Fun.(*ast.SelectorExpr); ok && sel.Sel.Name == "IsEmpty" && isRecv(sel.X) {
+							return false, true
+						}
+					}
+					// a helper of the receiver that reports emptiness:
+					// every `return true` of it sits under `if recv.IsEmpty()`
+					if c, ok := e.(*ast.CallExpr); ok {
+						if sel, ok := c.Fun.(*ast.SelectorExpr); ok && isRecv(sel.X) && emptyHelpers[info.Uses[sel.Sel]] {
 							return false, true
 						}
 					}
